@@ -33,6 +33,7 @@ class Monitor:
         self.pre_builtin = None     # fn(name, args)
         self.post_builtin = None    # fn(name, args, result)
         self.builtin_exc = None     # fn(name, args, exc)
+        self.paused = 0             # > 0: evaluations are not observed (nested evals run by host callbacks)
         self.wrappers = {}          # name -> wrapper installed in FUNCTIONS
         self.originals = {}         # name -> original FUNCTIONS entry
 
@@ -63,6 +64,8 @@ class Monitor:
         base = A.Op.__dict__['eval']
 
         def charge(self_, state, *a, **kw):
+            if mon.paused:
+                return base(self_, state, *a, **kw)
             if type(self_).eval is charge:
                 mon.entries[type(self_).__name__] += 1      # node kinds without an eval of their own (NoOp)
             if mon.pre_charge is not None:
@@ -84,6 +87,8 @@ class Monitor:
 
             def mk(orig, name):
                 def w(self_, state, *a, **kw):
+                    if mon.paused:
+                        return orig(self_, state, *a, **kw)
                     mon.entries[name] += 1
                     try:
                         r = orig(self_, state, *a, **kw)
